@@ -62,14 +62,48 @@ func verifC19(ord Ordering) {
 //verif:harness property=C19 theory=bv tier=quick timers=off unwind=3 unwindcut=1 clock=frozen maxpaths=30000
 func VerifC19_Conc_Random() { verifC19(OrderingRandom) }
 
-// VerifC19_Conc_FIFO: NOT REGISTERED (tier=off): two callers pushing onto the shared container/list make
-// the reference-candidate fix point of the isolated thread runs diverge (each run re-links elements
-// of the other); the queue limiter's hand-off under interleavings is covered with one waiter by C10.
+// VerifC19_Conc_FIFO: two callers of a FIFO pool of limit 1, every interleaving (registered since the
+// shared-location fix point accepts stable-but-incomplete candidate sets and combinations are pruned
+// by relaxed prefix queries).  The pinned tree's lost hand-offs of the queue limiter (C10 7a / 7b)
+// show up here as known findings.
 //
-//verif:harness property=C19 theory=bv tier=off timers=off unwind=3 unwindcut=1 clock=frozen maxpaths=30000
+//verif:harness property=C19 theory=bv tier=quick timers=off unwind=3 unwindcut=1 clock=frozen maxpaths=30000
 func VerifC19_Conc_FIFO() { verifC19(OrderingFIFO) }
 
-// VerifC19_Conc_LIFO: NOT REGISTERED (see VerifC19_Conc_FIFO).
+// VerifC19_Conc_LIFO: see VerifC19_Conc_FIFO.
 //
-//verif:harness property=C19 theory=bv tier=off timers=off unwind=3 unwindcut=1 clock=frozen maxpaths=30000
+//verif:harness property=C19 theory=bv tier=quick timers=off unwind=3 unwindcut=1 clock=frozen maxpaths=30000
 func VerifC19_Conc_LIFO() { verifC19(OrderingLIFO) }
+
+// verifC19GiveUp: a FIFO / LIFO pool of limit 1 whose token is held since setup, one caller queued
+// WITH its backlog timer armed (it may give up at any moment, in particular while the releasing
+// holder is handing the token over), the holder completing: at quiescence the queued caller has
+// returned, and the pool holds exactly the tokens its callers own - a token handed to a caller that
+// had already given up is returned to the pool, so that later callers can still be served.
+func verifC19GiveUp(ord Ordering) {
+	p, err := NewFixedPool("p", ord, 1, 100, time.Second, time.Second, time.Millisecond, 10, time.Second, nil, nil)
+	verif.Assert("pool-constructed", err == nil)
+	_, _, _, _, delegate := limiter.VerifDescribe(p.limiter)
+	st, _ := limiter.VerifDefaultParts(delegate.(*limiter.DefaultLimiter))
+	ps := st.(*strategy.PreciseStrategy)
+	held, ok := p.Acquire(context.Background())
+	verif.Assert("setup-holds-the-only-token", ok && ps.GetBusyCount() == 1)
+	var wOK, wDone bool
+	verif.Spawn("w", func() {
+		l, granted := p.Acquire(context.Background())
+		wOK, wDone = granted && l != nil, true
+	})
+	verif.Spawn("r", func() { held.OnIgnore() })
+	verif.Parallel()
+	verif.Assert("queued-caller-returns", wDone)
+	verif.Assert("pool-holds-exactly-the-tokens-owned", ps.GetBusyCount() == verif.B2I(wOK))
+	verif.Reach("end")
+}
+
+// VerifC19_Conc_GiveUp_FIFO / _LIFO
+//
+//verif:harness property=C19 theory=bv tier=quick unwind=3 unwindcut=1 clock=frozen maxpaths=30000
+func VerifC19_Conc_GiveUp_FIFO() { verifC19GiveUp(OrderingFIFO) }
+
+//verif:harness property=C19 theory=bv tier=quick unwind=3 unwindcut=1 clock=frozen maxpaths=30000
+func VerifC19_Conc_GiveUp_LIFO() { verifC19GiveUp(OrderingLIFO) }
